@@ -1,4 +1,5 @@
 import GoSSE.Proofs.GenEquiv
+import GoSSE.Proofs.GenEquivFields
 import GoSSE.Proofs.MessageFields
 import GoSSE.Proofs.MessageBuild
 /-!
@@ -148,5 +149,41 @@ theorem translated_isSingleLine_is_model (fuel : Nat) (p : Bytes) (hf : p.length
   GenEquiv.isSingleLine_eq fuel p hf
 
 example : Gen.isSingleLine 5 [97, 13, 98] = .ok false := by rfl
+
+/-- `newMessageField`, `(*messageField).UnmarshalText`, `NewID`, `NewType` *as translated from message_fields.go*
+return, for every input, exactly the field of the model's routes (`…_set_implies_single_line`,
+`…_multiline_leaves_unset` above are about those) and an error exactly when the model reports one. -/
+theorem translated_newMessageField_is_model (fuel : Nat) (v : Bytes) (hf : v.length < fuel) :
+    Gen.newMessageField fuel v =
+      .ok (GenEquiv.toGenF (newMessageField v).1, if (newMessageField v).2 then some "input is multiline" else none) :=
+  GenEquiv.newMessageField_eq fuel v hf
+
+theorem translated_UnmarshalText_is_model (fuel : Nat) (prev : Gen.messageField) (data : Bytes) (hf : data.length < fuel)
+    (prevM : MField) :
+    ∃ err, Gen.messageField_UnmarshalText fuel prev data =
+        .ok (err, GenEquiv.toGenF (MField.unmarshalText prevM data).1) ∧
+      err.isSome = (MField.unmarshalText prevM data).2 :=
+  GenEquiv.UnmarshalText_eq fuel prev data hf prevM
+
+theorem translated_NewID_is_model (fuel : Nat) (v : Bytes) (hf : v.length < fuel) :
+    ∃ err, Gen.NewID fuel v = .ok ({ messageField := GenEquiv.toGenF (newID v).1 }, err) ∧ err.isSome = (newID v).2 :=
+  GenEquiv.NewID_eq fuel v hf
+
+theorem translated_NewType_is_model (fuel : Nat) (v : Bytes) (hf : v.length < fuel) :
+    ∃ err, Gen.NewType fuel v = .ok ({ messageField := GenEquiv.toGenF (newType v).1 }, err) ∧ err.isSome = (newType v).2 :=
+  GenEquiv.NewType_eq fuel v hf
+
+/-- consequence, on the translated text itself: whatever `NewID` returns as set contains no CR or LF -/
+theorem translated_NewID_set_is_single_line (fuel : Nat) (v : Bytes) (hf : v.length < fuel) (id : Gen.EventID)
+    (err : Option String) (h : Gen.NewID fuel v = .ok (id, err)) (hs : id.messageField.set = true) :
+    isSingleLine id.messageField.value = true := by
+  obtain ⟨err', h', _⟩ := GenEquiv.NewID_eq fuel v hf
+  rw [h'] at h
+  injection h with h
+  injection h with h1 _
+  subst h1
+  simp only [GenEquiv.toGenF] at hs ⊢
+  unfold newID newMessageField at hs ⊢
+  by_cases hsl : isSingleLine v <;> simp [hsl] at hs ⊢
 
 end GoSSE.Props.C14
